@@ -1,0 +1,144 @@
+//! Verification hook (only compiled with `--cfg gamedig_verif`).
+//!
+//! Routes the I/O of [`crate::socket::UdpSocket`] / [`crate::socket::TcpSocket`]
+//! to a thread-local scripted [`Wire`] when one is installed, and to the real
+//! socket implementations otherwise. Also re-exports crate-private items that
+//! verification harnesses check directly.
+
+use crate::protocols::types::TimeoutSettings;
+use crate::socket::{Socket, TcpSocketImpl, UdpSocketImpl};
+use crate::GDResult;
+
+use std::cell::RefCell;
+use std::net::SocketAddr;
+
+pub use crate::buffer::{Buffer, StringDecoder, Utf16Decoder, Utf8Decoder, Utf8LengthPrefixedDecoder};
+pub use crate::socket::{Socket as SocketTrait, TcpSocketImpl as RealTcpSocket, UdpSocketImpl as RealUdpSocket};
+pub use crate::utils::{error_by_expected_size, retry_on_timeout, u8_lower_upper};
+
+#[cfg(feature = "games")]
+pub mod minecraft_codec {
+    use crate::buffer::Buffer;
+    use crate::GDResult;
+    use byteorder::ByteOrder;
+
+    pub fn get_varint<B: ByteOrder>(buffer: &mut Buffer<B>) -> GDResult<i32> {
+        crate::games::minecraft::get_varint(buffer)
+    }
+    pub fn as_varint(value: i32) -> Vec<u8> { crate::games::minecraft::as_varint(value) }
+    pub fn get_string<B: ByteOrder>(buffer: &mut Buffer<B>) -> GDResult<String> {
+        crate::games::minecraft::get_string(buffer)
+    }
+    pub fn as_string(value: &str) -> GDResult<Vec<u8>> { crate::games::minecraft::as_string(value) }
+}
+
+/// Transport kind of a connection opened by the library.
+#[derive(Debug, Clone, Copy, PartialEq, Eq, Hash)]
+pub enum Proto {
+    Udp,
+    Tcp,
+}
+
+/// A scripted transport. All methods are called on the thread that runs the
+/// query.
+pub trait Wire {
+    /// A socket is being created towards `peer`. Returns a connection id.
+    fn open(&mut self, proto: Proto, peer: &SocketAddr, timeouts: &Option<TimeoutSettings>) -> GDResult<u64>;
+    /// The library sends `data` on connection `conn`.
+    fn send(&mut self, conn: u64, data: &[u8]) -> GDResult<()>;
+    /// The library asks for data on connection `conn`.
+    fn recv(&mut self, conn: u64, size: Option<usize>) -> GDResult<Vec<u8>>;
+    /// The socket of connection `conn` was dropped.
+    fn close(&mut self, _conn: u64) {}
+}
+
+thread_local! {
+    static WIRE: RefCell<Option<Box<dyn Wire>>> = const { RefCell::new(None) };
+}
+
+/// Install a scripted wire for the current thread, returning the previous one.
+pub fn install(wire: Box<dyn Wire>) -> Option<Box<dyn Wire>> { WIRE.with(|w| w.borrow_mut().replace(wire)) }
+
+/// Remove the scripted wire of the current thread (real sockets are used
+/// again).
+pub fn uninstall() -> Option<Box<dyn Wire>> { WIRE.with(|w| w.borrow_mut().take()) }
+
+fn with_wire<T>(f: impl FnOnce(&mut dyn Wire) -> T) -> Option<T> {
+    WIRE.with(|w| {
+        match w.try_borrow_mut() {
+            Ok(mut guard) => guard.as_mut().map(|wire| f(wire.as_mut())),
+            Err(_) => None,
+        }
+    })
+}
+
+macro_rules! hooked_socket {
+    ($name: ident, $real: ty, $proto: expr) => {
+        pub enum $name {
+            Real($real),
+            Scripted { conn: u64, peer: SocketAddr },
+        }
+
+        impl Socket for $name {
+            fn new(address: &SocketAddr, timeout_settings: &Option<TimeoutSettings>) -> GDResult<Self> {
+                match with_wire(|w| w.open($proto, address, timeout_settings)) {
+                    Some(conn) => {
+                        Ok(Self::Scripted {
+                            conn: conn?,
+                            peer: *address,
+                        })
+                    }
+                    None => Ok(Self::Real(<$real as Socket>::new(address, timeout_settings)?)),
+                }
+            }
+
+            fn apply_timeout(&self, timeout_settings: &Option<TimeoutSettings>) -> GDResult<()> {
+                match self {
+                    Self::Real(s) => s.apply_timeout(timeout_settings),
+                    Self::Scripted { .. } => Ok(()),
+                }
+            }
+
+            fn send(&mut self, data: &[u8]) -> GDResult<()> {
+                match self {
+                    Self::Real(s) => s.send(data),
+                    Self::Scripted { conn, .. } => {
+                        let conn = *conn;
+                        with_wire(|w| w.send(conn, data))
+                            .unwrap_or_else(|| Err(crate::GDErrorKind::PacketSend.context("verif wire gone")))
+                    }
+                }
+            }
+
+            fn receive(&mut self, size: Option<usize>) -> GDResult<Vec<u8>> {
+                match self {
+                    Self::Real(s) => s.receive(size),
+                    Self::Scripted { conn, .. } => {
+                        let conn = *conn;
+                        with_wire(|w| w.recv(conn, size))
+                            .unwrap_or_else(|| Err(crate::GDErrorKind::PacketReceive.context("verif wire gone")))
+                    }
+                }
+            }
+
+            fn port(&self) -> u16 {
+                match self {
+                    Self::Real(s) => s.port(),
+                    Self::Scripted { peer, .. } => peer.port(),
+                }
+            }
+        }
+
+        impl Drop for $name {
+            fn drop(&mut self) {
+                if let Self::Scripted { conn, .. } = self {
+                    let conn = *conn;
+                    let _ = with_wire(|w| w.close(conn));
+                }
+            }
+        }
+    };
+}
+
+hooked_socket!(HookedUdpSocket, UdpSocketImpl, Proto::Udp);
+hooked_socket!(HookedTcpSocket, TcpSocketImpl, Proto::Tcp);
